@@ -20,6 +20,9 @@ structure Quirks where
   /-- D-18a: `prepare_attributes` pairs `attrs` with `ns_attrs.items()` by position; `convert_data_attributes` converts
   every `data-<bound prefix>-<name>` and raises `KeyError` for an unbound one -/
   zipPairing : Bool
+  /-- D-07e: `_create_attributes_nodes` entity-decoded the expression of a named or dictionary `tal:attributes` entry a
+  second time (`visit_element` has decoded the whole statement already) -/
+  attrDecodeTwice : Bool := false
   deriving Repr, DecidableEq, Inhabited
 
 def Quirks.current : Quirks :=
